@@ -17,7 +17,12 @@ def qualify(cause, sc):
     the history class it was recorded for and a different violation with the same Spec clause is still reported."""
     kind = str(sc.get("kind", ""))
     plan = sc.get("plan") or {}
-    if kind.startswith("closer"):
+    if kind == "closer-line":
+        # another thread calls close() while the loop thread is at a given executed LINE (possibly inside read(), between its
+        # test of keep_running and the end of the receive)
+        trig = "second-thread-close-at-line"
+    elif kind.startswith("closer"):
+        # ... while the loop thread waits in select (scripted tick)
         trig = "second-thread-close"
     elif any("c" in str(v) for k, v in plan.items() if k in ("on_open", "on_reconnect")) or (
             "c" in str(plan.get("on_error", "")) and any("r" in str(v) for k, v in plan.items() if k in ("on_open", "on_reconnect"))):
